@@ -788,6 +788,11 @@ func doCheck(prop, tier string, seed uint64, nworkers, maxSec int, noMin bool) i
 	nviol := 0
 	knownHits := map[string]int{}
 	os.MkdirAll(filepath.Join(root, "replays"), 0o755)
+	if old, _ := filepath.Glob(filepath.Join(root, "replays", prop+"-*.json")); len(old) > 0 {
+		for _, f := range old {
+			os.Remove(f)
+		}
+	}
 	var vlines []string
 	classCount := map[string]int{}
 	for _, key := range order {
@@ -1071,4 +1076,14 @@ func ruleFor(prop string) string {
 		return "cases: curated inputs + seeded generator (valid programs, mutants, parser-error-then-lexer-error, reader faults, bufio readers, arithmetic with several faults, $(( )) words, token strings); each case is run under parser-first, lexer-first and N seeded schedules; a case is non-trivial if at least one of its runs contained a scheduling decision (two or more goroutines parked at once); distinct = distinct case key (hash of the explicit case)"
 	}
 	return props.RuleFor(prop)
+}
+
+// exhaustiveSpaces reports which finite sub-spaces the run enumerated completely.
+func exhaustiveSpaces(prop, tier string, lanes int, byKind map[string]int) map[string]interface{} {
+	out := map[string]interface{}{}
+	for name, size := range props.ExhaustiveSpaces(prop, tier) {
+		covered := byKind[name] / lanes
+		out[name] = map[string]interface{}{"size": size, "covered_per_lane": covered, "complete": covered >= size}
+	}
+	return out
 }
